@@ -286,7 +286,7 @@ Proof.
   assert (Hcont : forall hs', table_ok (service_cxes cleans snap hs' (handshake_failed true false s ca cx))).
   { intro hs'. apply IH; [exact Hd'| |apply Hfail].
     intros ca' cx' Hin. cbn [handshake_failed cxes]. rewrite lookup_aremove_other; [apply Hrest; exact Hin|eapply Hne; exact Hin]. }
-  destruct (sk s cx); [| |apply ok_wedge; exact Hs];
+  destruct (sk s cx); [| | |apply ok_wedge; exact Hs];
     (destruct hs as [|[| |] hs];
      [apply IH; assumption | apply Hprom | apply IH; assumption
      | destruct cleans; [apply Hfail|apply Hfail|apply Hcont]]).
@@ -304,12 +304,19 @@ Proof.
   intros i Hi Ho. apply H4; [exact Hi|apply Hf; exact Ho].
 Qed.
 
+Lemma ok_with_released s f l :
+  (forall j, f j = Open -> sk s j = Open) -> table_ok s -> table_ok (with_released s f l).
+Proof.
+  intros Hf [H1 H2 H3 H4]. constructor; cbn; try assumption.
+  intros i Hi Ho. apply H4; [exact Hi|apply Hf; exact Ho].
+Qed.
+
 Lemma ok_err s : table_ok s -> table_ok (err s).
 Proof. intros [H1 H2 H3 H4]. constructor; cbn; assumption. Qed.
 
 Lemma ok_step tls cleans s o : table_ok s -> table_ok (step tls cleans s o).
 Proof.
-  intro Hs. destruct o as [cas hs|ca|ca| |ca sc]; cbn [step].
+  intro Hs. destruct o as [cas hs|ca|ca| |ca sc|ca]; cbn [step].
   - destruct tls.
     + assert (H1 : table_ok (fold_left accept_tls cas s)) by (apply ok_fold_accept; [apply ok_accept_tls|exact Hs]).
       apply ok_service_cxes; [apply (ok_cxes_functional _ H1)| |exact H1].
@@ -318,8 +325,8 @@ Proof.
   - destruct (lookup ca (ixes s)); [|apply ok_err; exact Hs].
     apply ok_with_sk; [|exact Hs]. intros j H. apply upd_open_inv in H; [tauto|apply shut1_not_open].
   - destruct (lookup ca (ixes s)); [|apply ok_err; exact Hs].
-    apply ok_with_sk; [|exact Hs]. intros j H. apply upd_open_inv in H; [tauto|]. intro; discriminate.
-  - apply ok_with_sk; [|exact Hs]. intros j H. eapply close_fold_open_inv. exact H.
+    apply ok_with_released; [|exact Hs]. intros j H. apply upd_open_inv in H; [tauto|]. intro; discriminate.
+  - apply ok_with_released; [|exact Hs]. intros j H. eapply close_fold_open_inv. exact H.
   - destruct (lookup ca (ixes s)) as [i|] eqn:L; [|apply ok_err; exact Hs].
     destruct Hs as [H1 H2 H3 H4]. constructor; cbn [ixes cxes next sk detached].
     + apply nodup_aremove. exact H1.
@@ -337,6 +344,8 @@ Proof.
       destruct (ids_aremove_keep ca _ _ Hr) as [K|K]; [auto|].
       rewrite K in L. inversion L; subst. destruct sc; [exfalso; apply Ho2; reflexivity|].
       right. right. left. reflexivity.
+  - destruct (lookup ca (ixes s)); [|exact Hs].
+    apply ok_with_sk; [|exact Hs]. intros j H. apply upd_open_inv in H; [tauto|]. intro x; destruct x; discriminate.
 Qed.
 
 Lemma ok_run tls cleans ops : table_ok (run tls cleans ops).
@@ -479,7 +488,7 @@ Proof.
   { intro hs'. cbv zeta. right. right.
     pose proof (hfails_mono cleans snap hs' (handshake_failed true false s k v)) as M.
     cbn [handshake_failed hfails] in M. lia. }
-  destruct (sk s v); [| |cbn; tauto];
+  destruct (sk s v); [| | |cbn; tauto];
     (destruct hs as [|[| |] hs];
      [apply IH; assumption | apply Hprom | apply IH; assumption
      | destruct cleans; [right; right; cbn; lia|right; right; cbn; lia|apply Hcont]]).
